@@ -143,6 +143,14 @@ reg("C15", "exploration",
     "remove-by-another. Thorough adds an atheris campaign on the parser.",
     BASE_NOTE + "The reference is derived from _dsl_grammar.lark and the user manual, not from parsing.py.", "DESIGN.md 3/C15")
 
+reg("C16", "exploration",
+    "differential testing of on_trait_change extended names against observe expressions on generated tree-shaped graphs, with a from-scratch reachability walk as third opinion",
+    "Generated extended names (1-3 links through Instance/List/Dict/Set traits, '.'/':' mixes) with the corresponding observe "
+    "expression on tree-shaped graphs; after each of <=15 mutations the final attribute of every object ever created is probed: "
+    "legacy called iff observe called iff reachable; link assignments are reported by both for '.' and by neither for ':'; after "
+    "remove=True nothing is called. Sampling.",
+    BASE_NOTE + "Unshared graphs and explicit values only, as the statement requires.", "DESIGN.md 3/C16")
+
 
 def main():
     props = [json.loads(l) for l in open(os.path.join(ROOT, "properties.jsonl"))]
